@@ -138,7 +138,15 @@ func checkC09(p *Program, r *Report) {
 				managed, managedKnown = pol, true
 			}
 		}
+		foundEntry := false
+		for a, pol := range o.St.atoms {
+			if strings.HasPrefix(a, "has(recv.inFlight[") && pol {
+				foundEntry = true
+			}
+		}
 		switch {
+		case foundEntry && !lastKnown:
+			r.Fail("incoming-release", key, token.NoPos, "a frame addressed to a registered request leaves the handler before it is decided whether it is the last frame of the response: if it is, the entry stays registered and its stream id is never returned to the pool")
 		case removed && (!lastKnown || !last):
 			r.Fail("incoming-release", key, token.NoPos, "the in-flight entry is removed on a frame that is not the last one of its response")
 		case lastKnown && last && !removed:
@@ -157,6 +165,7 @@ func checkC09(p *Program, r *Report) {
 	c09AtomicInsert(p, r)
 	c09NonBlocking(p, r)
 	c09LastFrame(p, r)
+	c09EnqueueCapacity(p, r)
 }
 
 func clientFuncs(p *Program) []*ssa.Function {
@@ -634,6 +643,13 @@ func checkC10(p *Program, r *Report) {
 	c10LockPairing(p, r)
 	c10RequestDelivery(p, r)
 	c09LastFrame(p, r)
+	c10PendingCapacity(p, r)
+	// under v5 several responses can share one self-contained segment: each must be delivered
+	if m := p.TryMethod("client", "CqlClientConnection", "readSelfContainedSegment"); m != nil {
+		segmentDrain(r, "segment-drain", p.SSA().FuncValue(m))
+	} else {
+		fatalf("anchor: CqlClientConnection.readSelfContainedSegment not found")
+	}
 }
 
 // c10LockPairing: on every path of every function of package client, each mutex acquired is
@@ -777,5 +793,186 @@ func c10RequestDelivery(p *Program, r *Report) {
 		r.OKf("request-delivery", "send operands", fn.Pos(), "the frame received is sent on the request's own channel")
 	} else {
 		r.Fail("request-delivery", "send operands", fn.Pos(), "onFrameReceived does not send its frame argument on the request's own _incoming channel")
+	}
+}
+
+// c09EnqueueCapacity: Send registers a request and then enqueues its frame without blocking; the
+// failure branch of that enqueue does not roll the registration back, which is sound only while it
+// is unreachable: every queued frame belongs to a registered request, so the queue must hold as
+// many frames as requests can be registered. Decided structurally: the capacity of the outgoing
+// queue is the very value handed to the in-flight handler as its maximum, or the failure branch
+// removes the registration.
+func c09EnqueueCapacity(p *Program, r *Report) {
+	ctor := p.SSA().FuncValue(p.LookupFunc("client", "newCqlClientConnection"))
+	var capVal, maxVal ssa.Value
+	for _, b := range ctor.Blocks {
+		for _, ins := range b.Instrs {
+			switch x := ins.(type) {
+			case *ssa.Store:
+				if fa, ok := x.Addr.(*ssa.FieldAddr); ok && fieldName(fa.X.Type(), fa.Field) == "outgoing" {
+					if mc, ok := x.Val.(*ssa.MakeChan); ok {
+						capVal = mc.Size
+					}
+				}
+			case *ssa.Call:
+				if f := x.Call.StaticCallee(); f != nil && f.Name() == "newInFlightRequestsHandler" {
+					for i := 0; i < f.Signature.Params().Len(); i++ {
+						if f.Signature.Params().At(i).Name() == "maxInFlight" && i < len(x.Call.Args) {
+							maxVal = x.Call.Args[i]
+						}
+					}
+				}
+			}
+		}
+	}
+	if capVal == nil || maxVal == nil {
+		fatalf("anchor: outgoing queue or in-flight handler construction not found in newCqlClientConnection")
+	}
+	// does the failure branch of Send's enqueue roll back?
+	send := p.SSA().FuncValue(p.LookupMethod("client", "CqlClientConnection", "Send"))
+	rollback := false
+	for _, b := range send.Blocks {
+		for _, ins := range b.Instrs {
+			if c, ok := ins.(*ssa.Call); ok {
+				if f := c.Call.StaticCallee(); f != nil && (strings.Contains(f.Name(), "removeInFlight") || strings.Contains(f.Name(), "rollback") || strings.Contains(f.Name(), "Cancel")) {
+					rollback = true
+				}
+			}
+		}
+	}
+	strip := func(v ssa.Value) ssa.Value {
+		for {
+			switch x := v.(type) {
+			case *ssa.Convert:
+				v = x.X
+				continue
+			case *ssa.ChangeType:
+				v = x.X
+				continue
+			}
+			return v
+		}
+	}
+	switch {
+	case strip(capVal) == strip(maxVal):
+		r.OKf("enqueue-capacity", "CqlClientConnection.outgoing", ctor.Pos(), "the outgoing queue holds as many frames as requests can be registered (%s)", describeVal(capVal))
+	case rollback:
+		r.OKf("enqueue-capacity", "CqlClientConnection.outgoing", ctor.Pos(), "the enqueue failure branch rolls the registration back")
+	default:
+		r.Fail("enqueue-capacity", "CqlClientConnection.outgoing", ctor.Pos(), "the outgoing queue has capacity %s while up to %s requests can be registered, and Send's enqueue-failure branch does not remove the registration: a burst of sends against a slow writer is refused with fewer than N requests unanswered, and every refused send leaks its stream id and map entry", describeVal(capVal), describeVal(maxVal))
+	}
+}
+
+// c10PendingCapacity: every request buffers as many response frames as the connection was
+// configured for: the capacity of a request's incoming channel is the handler's configured
+// maxPending for every request, whatever its message type. (A capacity chosen per request kind
+// that forgets one kind makes the second page of a multi-page response overflow the buffer.)
+func c10PendingCapacity(p *Program, r *Report) {
+	ctor := p.SSA().FuncValue(p.LookupFunc("client", "newInFlightRequest"))
+	// the channel capacity is the constructor's parameter
+	var capParam *ssa.Parameter
+	for _, b := range ctor.Blocks {
+		for _, ins := range b.Instrs {
+			if mc, ok := ins.(*ssa.MakeChan); ok {
+				v := mc.Size
+				for {
+					if cv, ok := v.(*ssa.Convert); ok {
+						v = cv.X
+						continue
+					}
+					break
+				}
+				if pp, ok := v.(*ssa.Parameter); ok {
+					capParam = pp
+				} else {
+					r.Fail("pending-capacity", "newInFlightRequest", mc.Pos(), "the incoming channel's capacity is %s, not the configured maximum of pending frames", describeVal(mc.Size))
+					return
+				}
+			}
+		}
+	}
+	if capParam == nil {
+		fatalf("anchor: newInFlightRequest creates no channel")
+	}
+	// origins of the parameter over all static callers, transitively
+	cg := p.CallGraphVTA()
+	bad := ""
+	seen := map[ssa.Value]bool{}
+	var origin func(v ssa.Value, depth int)
+	origin = func(v ssa.Value, depth int) {
+		if seen[v] || bad != "" || depth > 6 {
+			return
+		}
+		seen[v] = true
+		switch x := v.(type) {
+		case *ssa.Convert:
+			origin(x.X, depth)
+		case *ssa.UnOp:
+			if fa, ok := x.X.(*ssa.FieldAddr); ok && fieldName(fa.X.Type(), fa.Field) == "maxPending" {
+				return // the handler's configured value
+			}
+			bad = fmt.Sprintf("the capacity comes from %s", describeVal(x.X))
+		case *ssa.Parameter:
+			fn := x.Parent()
+			idx := -1
+			for i, pp := range fn.Params {
+				if pp == x {
+					idx = i
+				}
+			}
+			node := cg.Nodes[fn]
+			if node == nil || len(node.In) == 0 {
+				if fn.Object() != nil && fn.Object().Exported() {
+					return // an exported constructor's argument: the configuration itself
+				}
+				bad = fmt.Sprintf("parameter %s of %s has no caller", x.Name(), fn.Name())
+				return
+			}
+			for _, e := range node.In {
+				args := e.Site.Common().Args
+				if idx < len(args) {
+					origin(args[idx], depth+1)
+				}
+			}
+		case *ssa.Const:
+			bad = fmt.Sprintf("some requests get the constant capacity %s instead of the configured maximum", x.Value)
+		case *ssa.Phi:
+			for _, e := range x.Edges {
+				origin(e, depth)
+			}
+		case *ssa.Call:
+			if f := x.Call.StaticCallee(); f != nil && f.Blocks != nil {
+				for _, b := range f.Blocks {
+					if ret, ok := b.Instrs[len(b.Instrs)-1].(*ssa.Return); ok && len(ret.Results) > 0 {
+						origin(ret.Results[0], depth+1)
+					}
+				}
+				return
+			}
+			bad = "the capacity is the result of a dynamic call"
+		default:
+			bad = fmt.Sprintf("the capacity comes from %s", describeVal(v))
+		}
+	}
+	node := cg.Nodes[ctor]
+	n := 0
+	if node != nil {
+		for _, e := range node.In {
+			args := e.Site.Common().Args
+			for i, pp := range ctor.Params {
+				if pp == capParam && i < len(args) {
+					n++
+					origin(args[i], 0)
+				}
+			}
+		}
+	}
+	if n == 0 {
+		bad = "newInFlightRequest has no caller"
+	}
+	if bad != "" {
+		r.Fail("pending-capacity", "inFlightRequest.incoming", ctor.Pos(), "%s: the frames of a multi-page response that arrive before the previous page is read overflow the buffer and the request fails", bad)
+	} else {
+		r.OKf("pending-capacity", "inFlightRequest.incoming", ctor.Pos(), "every request's buffer has the configured capacity (%d construction sites)", n)
 	}
 }
